@@ -1821,6 +1821,15 @@ void SZ_compress_args_float_NoCkRngeNoGzip_1D_pwr_pre_log(unsigned char** newByt
 	computeRangeSize_float(log_data, dataLength, &valueRangeSize, &medianValue_f);
 	if(fabs(min_log_data) > max_abs_log_data) max_abs_log_data = fabs(min_log_data);
 	double realPrecision = log2(1.0 + pwrErrRatio) - max_abs_log_data * 1.2e-7;
+	if(realPrecision <= 0)
+	{
+		//the requested ratio is below what the log2/exp2 round trip can resolve in this element type: keep the values exactly
+		*newByteData = (unsigned char*)malloc(3 + MetaDataByteLength + exe_params->SZ_SIZE_TYPE + 1 + sizeof(float)*dataLength);
+		SZ_compress_args_float_StoreOriData(oriData, dataLength, newByteData, outSize);
+		free(log_data);
+		free(signs);
+		return;
+	}
 	for(size_t i=0; i<dataLength; i++){
 		if(oriData[i] == 0){
 			log_data[i] = min_log_data - 2.0001*realPrecision;
@@ -1883,6 +1892,15 @@ void SZ_compress_args_float_NoCkRngeNoGzip_2D_pwr_pre_log(unsigned char** newByt
 	computeRangeSize_float(log_data, dataLength, &valueRangeSize, &medianValue_f);
 	if(fabs(min_log_data) > max_abs_log_data) max_abs_log_data = fabs(min_log_data);
 	double realPrecision = log2(1.0 + pwrErrRatio) - max_abs_log_data * 1.2e-7;
+	if(realPrecision <= 0)
+	{
+		//the requested ratio is below what the log2/exp2 round trip can resolve in this element type: keep the values exactly
+		*newByteData = (unsigned char*)malloc(3 + MetaDataByteLength + exe_params->SZ_SIZE_TYPE + 1 + sizeof(float)*dataLength);
+		SZ_compress_args_float_StoreOriData(oriData, dataLength, newByteData, outSize);
+		free(log_data);
+		free(signs);
+		return;
+	}
 	for(size_t i=0; i<dataLength; i++){
 		if(oriData[i] == 0){
 			log_data[i] = min_log_data - 2.0001*realPrecision;
@@ -1945,6 +1963,15 @@ void SZ_compress_args_float_NoCkRngeNoGzip_3D_pwr_pre_log(unsigned char** newByt
 	computeRangeSize_float(log_data, dataLength, &valueRangeSize, &medianValue_f);
 	if(fabs(min_log_data) > max_abs_log_data) max_abs_log_data = fabs(min_log_data);
 	double realPrecision = log2(1.0 + pwrErrRatio) - max_abs_log_data * 1.2e-7;
+	if(realPrecision <= 0)
+	{
+		//the requested ratio is below what the log2/exp2 round trip can resolve in this element type: keep the values exactly
+		*newByteData = (unsigned char*)malloc(3 + MetaDataByteLength + exe_params->SZ_SIZE_TYPE + 1 + sizeof(float)*dataLength);
+		SZ_compress_args_float_StoreOriData(oriData, dataLength, newByteData, outSize);
+		free(log_data);
+		free(signs);
+		return;
+	}
 	for(size_t i=0; i<dataLength; i++){
 		if(oriData[i] == 0){
 			log_data[i] = min_log_data - 2.0001*realPrecision;
